@@ -1637,6 +1637,23 @@ func c01r12(rc *core.RC) {
 		})
 		rc.Check(byLen, key, cc.Pos(), "a value of kind %s is empty when its length is 0 (encoding/json isEmptyValue)", k)
 	}
+	// a float is empty when it compares equal to 0 (encoding/json: v.Float() == 0): that includes -0, whose bits are not zero
+	for _, k := range []string{"Float32", "Float64"} {
+		cc := ks.clause[k]
+		if cc == nil {
+			continue
+		}
+		byBits := false
+		ast.Inspect(cc, func(m ast.Node) bool {
+			if c, ok := m.(*ast.CallExpr); ok {
+				if n := core.CalleeName(info, c); n == "math.Float64bits" || n == "math.Float32bits" {
+					byBits = true
+				}
+			}
+			return true
+		})
+		rc.Check(!byBits, "encoder.IsNilForMarshaler/kind "+k+" compared-as-a-number", cc.Pos(), "a float of a marshaler type is empty when it equals 0 as a number; compared by its bit pattern, -0 is not empty and an omitempty member that holds it is written where encoding/json omits it")
+	}
 	for _, k := range []string{"Bool", "Int", "Int8", "Int16", "Int32", "Int64", "Uint", "Uint8", "Uint16", "Uint32", "Uint64", "Uintptr", "Float32", "Float64", "Interface", "Ptr"} {
 		rc.Check(ks.clause[k] != nil, "encoder.IsNilForMarshaler/kind "+k, ks.sw.Pos(), "kind %s has an emptiness clause", k)
 	}
